@@ -197,7 +197,11 @@ func (ex *Exec) Discharge(timeout time.Duration, keepScripts string) []*OblResul
 			os.MkdirAll("/tmp/govc-dump", 0o755)
 			os.WriteFile(filepath.Join("/tmp/govc-dump", sanitize(o.Name)+".smt2"), []byte(script), 0o644)
 		}
-		jobs = append(jobs, job{i, script, ex.skolemScript(o)})
+		sk := ex.skolemScript(o)
+		if d := os.Getenv("GOVC_DUMP"); d != "" && strings.Contains(o.Name, d) && sk != "" {
+			os.WriteFile(filepath.Join("/tmp/govc-dump", sanitize(o.Name)+".sk.smt2"), []byte(sk), 0o644)
+		}
+		jobs = append(jobs, job{i, script, sk})
 	}
 	var wg sync.WaitGroup
 	for _, j := range jobs {
@@ -333,6 +337,7 @@ func (ex *Exec) skolemScript(o *Obligation) string {
 		return ""
 	}
 	var asserts []*Term
+	cands := append([]*Term(nil), consts...)
 	var addInst func(f *Term)
 	addInst = func(f *Term) {
 		if !ts.HasQuant(f) {
@@ -348,7 +353,7 @@ func (ex *Exec) skolemScript(o *Obligation) string {
 		for round := 0; round < 2; round++ {
 			var next []*Term
 			for _, w := range work {
-				for _, c := range consts {
+				for _, c := range cands {
 					for _, inst := range ts.Instances(w, c) {
 						if ts.HasQuant(inst) {
 							next = append(next, inst)
@@ -361,12 +366,50 @@ func (ex *Exec) skolemScript(o *Obligation) string {
 			work = next
 		}
 	}
-	for _, f := range ex.facts[:o.NFacts] {
-		addInst(f)
+	collect := func() {
+		for _, f := range ex.facts[:o.NFacts] {
+			addInst(f)
+		}
+		addInst(o.PC)
 	}
-	addInst(o.PC)
+	collect()
+	// second pass: also instantiate at the index terms the first pass brought up (one round of
+	// matching on array reads by hand), e.g. i-entry for a segment invariant
+	seenT := map[*Term]bool{}
+	have := map[*Term]bool{}
+	for _, c := range cands {
+		have[c] = true
+	}
+	var extra []*Term
+	var scan func(t *Term)
+	scan = func(t *Term) {
+		if seenT[t] {
+			return
+		}
+		seenT[t] = true
+		if t.Op == OpSelect && len(t.Args) == 2 {
+			ix := t.Args[1]
+			if ix.Sort.Kind == SBV && ix.Sort.W == 64 && !have[ix] && len(extra) < 12 {
+				have[ix] = true
+				extra = append(extra, ix)
+			}
+		}
+		for _, a := range t.Args {
+			scan(a)
+		}
+	}
+	// the goal and the most recent facts first: they talk about the current loop
+	scan(g)
+	for k := len(asserts) - 1; k >= 0; k-- {
+		scan(asserts[k])
+	}
+	if len(extra) > 0 {
+		cands = append(cands, extra...)
+		asserts = nil
+		collect()
+	}
 	asserts = append(asserts, ts.Not(g))
-	if len(asserts) > 4000 {
+	if len(asserts) > 30000 {
 		return ""
 	}
 	return ts.SMTScript(asserts, nil, "")
